@@ -94,8 +94,37 @@ def run(ctx):
                 return lab != "true"
             return True
 
+        def edge_filter(fld):
+            # a path on which `fld == src.fld` was established by the branch taken needs no write of fld
+            def ok_edge(b, to, lab):
+                if not not_self(b, to, lab):
+                    return False
+                c = f.term(b).get("cond")
+                if c is None:
+                    return True
+                c2, neg = cfg.strip_not(c)
+                bo = ir.as_binop(ir.unwrap(c2))
+                if bo and bo[0] in ("==", "!="):
+                    sides = {fmt(ir.unwrap(bo[1])), fmt(ir.unwrap(bo[2]))}
+                    if sides in ({fld, "%s.%s" % (src, fld)}, {fld, "%s.%s()" % (src, fld.rstrip("_"))}, {"%s()" % fld.rstrip("_"), "%s.%s()" % (src, fld.rstrip("_"))}):
+                        eq_lab = "true" if (bo[0] == "==") != neg else "false"
+                        return lab != eq_lab
+                return True
+            return ok_edge
+
+        def copies_in_place(e):
+            """elements copied/moved into the existing storage: std::copy/move/copy_n(..., begin()/data_.get()) or data_[i] = src..."""
+            if e.get("expr") is None:
+                return False
+            for n in walk(e["expr"], into_sc=False):
+                if n.get("k") == "call" and (n.get("name") or "") in ("std::copy", "std::move", "std::copy_n", "std::move_backward", "std::copy_backward", "std::uninitialized_copy") and len(n.get("args", [])) == 3:
+                    d = fmt(ir.unwrap(n["args"][2]))
+                    if d in ("begin()", "data_.get()", "(&data_[0])", "this->begin()", "end()"):
+                        return True
+            return False
+
         for fld in STATE:
-            ok, path = cfg.must_happen_before_exit(f, lambda e, fld=fld: fld in writes_state(prog, cg, f, e), edge_ok=not_self)
+            ok, path = cfg.must_happen_before_exit(f, lambda e, fld=fld: fld in writes_state(prog, cg, f, e) or (fld == "data_" and copies_in_place(e)), edge_ok=edge_filter(fld))
             ctx.check(ok, "R07.1", f, "assigns-%s:%s" % (fld, tag), "operator= can return without changing %s of *this (the left-hand side keeps its old contents)" % fld, f)
         rets = [ir.unwrap(e["expr"].get("e")) for _, _, e in f.roots() if e["expr"].get("k") == "return"]
         okr = bool(rets) and all(fmt(r) == "(*this)" for r in rets)
